@@ -931,7 +931,7 @@ class FnRun(FnAnalysis):
             n_ = len(t["args"][1]["const"]["str"].encode())
             res = ("bool", ("implies", ("Ge", self.len_val(st, sid), V_const(n_)))) if sid else None
         # ---- deref of containers to slices
-        elif last in ("deref", "deref_mut", "as_slice", "as_mut_slice", "as_bytes", "as_ref", "borrow", "as_str", "as_mut") and len(args) == 1 and args[0] and args[0][0] in ("slice", "ref") and (is_u8_seq(dcls) or dcls in ("&str", "&[u8]")):
+        elif last in ("deref", "deref_mut", "as_slice", "as_mut_slice", "as_bytes", "as_ref", "borrow", "as_str", "as_mut") and len(args) == 1 and args[0] and args[0][0] in ("slice", "ref") and (is_u8_seq(dcls) or dcls in ("&str", "&[u8]") or (dcls.startswith("&[") and last in ("deref", "deref_mut", "as_slice", "as_mut_slice") and not os.environ.get("C06_NO_LENONLY"))):
             sid = self.slice_arg(st, args[0])
             res = ("slice", sid) if sid else None
         # ---- indexing
@@ -1216,7 +1216,7 @@ class FnRun(FnAnalysis):
             return None
         sid = self.slice_arg(st, base)
         bytes_base = _c(name, "for str") or "u8" in base_ty or "str" in base_ty or "String" in base_ty
-        if sid is None:
+        if sid is None or sid in getattr(self, "lenonly", ()):
             return None
         bdesc = self.origin(st, sid)
         lenv = self.len_val(st, sid)
@@ -1367,6 +1367,8 @@ class FnRun(FnAnalysis):
                 sid = None
                 if ln and ln[0] == "int" and ln[1] is not None and len(ln[1].t) == 1 and ln[1].t[0][0].startswith("L"):
                     sid = ln[1].t[0][0][1:]
+                if sid in getattr(self, "lenonly", ()):
+                    sid, ln = None, ("int", None, 0, INF, False, frozenset())     # as before length-only tracking existed
                 idx_t = idx is None or idx[0] != "int" or idx[4]
                 bytes_base = sid is not None and self.sid_is_bytes(st, sid)
                 if idx_t or bytes_base:
@@ -1467,6 +1469,7 @@ class FnRun(FnAnalysis):
     def initial_state(self):
         st = State()
         self.arg_names = {}
+        self.lenonly = set()       # parameters that are slices of something else than bytes: length facts only, no sites
         for d in self.body.get("dbg", []):
             p = d["place"]
             if not p.get("p") and 1 <= p["l"] <= self.nargs:
@@ -1478,6 +1481,13 @@ class FnRun(FnAnalysis):
                 n = _array_len(c)
                 st.sl[sid] = (n, frozenset(), Lin(n)) if n is not None else (0, frozenset(), None)
                 st.val["_%d" % i] = ("slice", sid)
+            elif (c.startswith("&[") or c.startswith("&adt:alloc::vec::Vec<")) and not is_u8_seq(c) and not os.environ.get("C06_NO_LENONLY"):
+                # a slice / vector of something else than bytes: only its length is tracked (`stack.len() < argc` in a
+                # guard helper, `start <= res.len()` as a relation between arguments)
+                sid = "P%d" % i
+                st.sl[sid] = (0, frozenset(), None)
+                st.val["_%d" % i] = ("slice", sid)
+                self.lenonly.add(sid)
             elif c in INT_BOUNDS and c != "bool":
                 a = "m_%d" % i
                 lo, hi = INT_BOUNDS[c]
